@@ -367,3 +367,38 @@ Theorem C01_default_closure_lexical :
                     | Ok (VInt 1), Ok (VInt 7) => true | _, _ => false end) [Slip; Ref; Chk] = true.
 Proof. exact default_closure_lexical. Qed.
 Print Assumptions C01_default_closure_lexical.
+
+(* A variable is bound after its init form has been evaluated, in a frame that did not exist before (let*: per binding;
+   let: one frame for all variables after all init forms), in every mode: when the binding is made, no closure in
+   existence - the value of the init form, anything it stored in a cell or in the function table - and not the
+   enclosing scope either has the new frame in its scope.  Hence (with C01_closure_binding_stable) a closure made by
+   the init form of x that mentions x refers to the enclosing x for ever: it never reads or assigns the variable
+   being bound.  Evaluated in the three modes: (let ((n 10)) (let* ((n (lambda () n))) (funcall n))) => 10, the same
+   with do*, and (let ((c 0)) (let* ((c (lambda () (setq c (1+ c))))) (funcall c)) c) => 1. *)
+Theorem C01_letstar_init_outside_own_binding : forall m n st sc x e bs body v st1 a,
+  wf_state st -> wf_scope st sc ->
+  eval m n st sc e = (Ok v, st1) -> store_red m v = Ok a ->
+  eval m (S n) st sc (ELetStar ((x, e) :: bs) body) =
+    ev_letstar m (eval m n) (snd (alloc st1 [(x, a)])) ((List.length (frames st1), 1) :: sc) bs body
+  /\ unseen (List.length (frames st1)) a
+  /\ (forall l w, cell_get (frames st1) l = Some w -> unseen (List.length (frames st1)) w)
+  /\ (forall g c, find_fun (funs st1) g = Some c -> unseen (List.length (frames st1)) c)
+  /\ ~ In (List.length (frames st1)) (map fst sc).
+Proof. exact letstar_init_outside_own_binding. Qed.
+Print Assumptions C01_letstar_init_outside_own_binding.
+Theorem C01_let_inits_outside_binding : forall m n st sc bs body vs st1,
+  wf_state st -> wf_scope st sc ->
+  ev_inits m (eval m n) st sc (map snd bs) = (Ok vs, st1) ->
+  eval m (S n) st sc (ELet bs body) =
+    ev_seq (eval m n) (snd (alloc st1 (mk_frame (map fst bs) vs)))
+           ((List.length (frames st1), List.length (mk_frame (map fst bs) vs)) :: sc) body VNil
+  /\ Forall (unseen (List.length (frames st1))) vs
+  /\ (forall l w, cell_get (frames st1) l = Some w -> unseen (List.length (frames st1)) w)
+  /\ ~ In (List.length (frames st1)) (map fst sc).
+Proof. exact let_inits_outside_binding. Qed.
+Print Assumptions C01_let_inits_outside_binding.
+Theorem C01_init_closure_own_name :
+  forallb (fun m => match fst (run m 60 w_letstar_own_read), fst (run m 60 w_letstar_own_write), fst (run m 60 w_dostar_own_read) with
+                    | Ok (VInt 10), Ok (VInt 1), Ok (VInt 10) => true | _, _, _ => false end) [Slip; Ref; Chk] = true.
+Proof. exact init_closure_own_name. Qed.
+Print Assumptions C01_init_closure_own_name.
